@@ -25,6 +25,7 @@ type Clause struct {
 
 type LoopContract struct {
 	ExitAsserts []*Clause
+	Steps       []*Clause // `loop k step e`: holds at every back edge; prev(x) is x at the head of the iteration that ends there
 	Invariants  []*Clause
 	Decreases   *Clause
 	Modifies    *Clause
@@ -327,6 +328,12 @@ func (cs *ContractSet) LoadFile(path string, goFile bool, pkg string) error {
 					return errf(rc, "%v", err)
 				}
 				lc.ExitAsserts = append(lc.ExitAsserts, &Clause{Kind: "assert", Expr: e, Text: text, Tags: tags, Label: label, File: rc.file, Line: rc.line})
+			case "step":
+				e, err := ParseExpr(text)
+				if err != nil {
+					return errf(rc, "%v", err)
+				}
+				lc.Steps = append(lc.Steps, &Clause{Kind: "step", Expr: e, Text: text, Tags: tags, Label: label, File: rc.file, Line: rc.line})
 			case "decreases":
 				es, err := parseExprList(text)
 				if err != nil {
